@@ -750,6 +750,9 @@ def check_identity_fault_twins(ctx, lane):
     if len(steps) < 2 or len(steps) != len(lane.steps):
         return
     labels = [l.value for l in lane.config.target_labels]
+    if len(set(labels)) != len(labels):
+        ctx.skip("c05_duplicate_target_labels")  # totals then count a label's switches once per entry
+        return
 
     def tracked(st):
         """uuid of GT -> (actor index, est label) for results that are perfect pairs of a targeted label."""
